@@ -218,6 +218,14 @@ def _u32div(S):
                 implied=[("divisor non-zero", S.v(b) != 0)])
 
 
+def _u32div_small_rem(S):
+    """U32DIV under the additional assumption that the remainder cell is a u32 value: the part of
+    the U32DIV obligation that does hold on this AIR (the unrestricted one is a known finding)."""
+    d = _u32div(S)
+    d["pre"] = d["pre"] + [("s0' < 2^32 (assumed: remainder cell holds a u32 value)", S.lt(S.n[0], TWO32))]
+    return d
+
+
 def _u32assert2(S):
     return dict(outputs=[S.s[0], S.s[1]], consumed=2, rc16=True,
                 implied=[("s0 < 2^32", S.lt(S.s[0], TWO32)), ("s1 < 2^32", S.lt(S.s[1], TWO32))])
@@ -279,6 +287,7 @@ SPEC = {
     "Push": _free(1, 0),
     # --- u32 ------------------------------------------------------------------------------------
     "U32add": _u32add, "U32sub": _u32sub, "U32mul": _u32mul, "U32div": _u32div,
+    "U32div[rem<2^32]": _u32div_small_rem,
     "U32split": _u32split, "U32assert2": _u32assert2, "U32add3": _u32add3, "U32madd": _u32madd,
     # --- hasher / memory-stream operations: results come over the chiplet bus ---------------------
     "HPerm": _free(12, 12),
